@@ -752,17 +752,27 @@ pub fn gen_program(rng: &mut Rng, core: bool) -> GenOut {
     // feature variations
     let axes = if rng.chance(1, 3) { rng.urange(1, 2) } else { 0 };
     let fv = if axes > 0 {
-        let mut recs = Vec::new();
-        for _ in 0..rng.urange(1, 3) {
+        let mut recs: Vec<FvRecord> = Vec::new();
+        // a few cut points per axis so that the ranges of different records overlap, nest and abut
+        let cuts: Vec<Vec<i16>> = (0..axes).map(|_| (0..3).map(|_| rng.range(-16384, 16384) as i16).collect()).collect();
+        for _ in 0..rng.urange(1, 4) {
             let conds = if rng.chance(1, 10) {
                 None
+            } else if rng.chance(1, 12) {
+                Some(Vec::new())
             } else {
                 Some(
                     (0..rng.urange(1, 2))
                         .map(|_| {
-                            let a = rng.range(-16384, 16384) as i16;
-                            let b = rng.range(-16384, 16384) as i16;
                             let axis = if !core && rng.chance(1, 20) { axes as u16 } else { rng.below(axes) as u16 };
+                            let mut pt = |rng: &mut Rng| -> i16 {
+                                match rng.below(4) {
+                                    0 => rng.range(-16384, 16384) as i16,
+                                    1 => *rng.pick(&[-16384i16, 0, 16384]),
+                                    _ => *rng.pick(&cuts[(axis as usize).min(axes - 1)]),
+                                }
+                            };
+                            let (a, b) = (pt(rng), pt(rng));
                             Cond { axis, min: a.min(b), max: a.max(b) }
                         })
                         .collect(),
@@ -772,14 +782,21 @@ pub fn gen_program(rng: &mut Rng, core: bool) -> GenOut {
             if fis.is_empty() {
                 fis.push(rng.below(features.len()) as u16);
             }
-            let substs = fis
-                .into_iter()
-                .map(|fi| {
-                    let mut ls: Vec<u16> = top.iter().copied().filter(|_| rng.chance(1, 2)).collect();
-                    rng.shuffle(&mut ls);
-                    (fi, ls)
-                })
-                .collect();
+            let substs = if rng.chance(1, 4) {
+                None // NULL featureTableSubstitutionOffset
+            } else if rng.chance(1, 8) {
+                Some(Vec::new()) // a substitution table without records
+            } else {
+                Some(
+                    fis.into_iter()
+                        .map(|fi| {
+                            let mut ls: Vec<u16> = top.iter().copied().filter(|_| rng.chance(1, 2)).collect();
+                            rng.shuffle(&mut ls);
+                            (fi, ls)
+                        })
+                        .collect(),
+                )
+            };
             recs.push(FvRecord { conds, substs });
         }
         Some(recs)
